@@ -127,8 +127,10 @@ func (g *aspGen) stmt(ind int) {
 		g.forStmt(ind)
 	case k < 77 && g.depth == 0 && !g.inFunc:
 		g.funcDef(ind)
-	case k < 92 && !g.inFunc:
+	case k < 90 && !g.inFunc:
 		g.pattern(ind)
+	case k < 93 && len(g.funcs) > 0:
+		g.callStmt(ind)
 	case k < 95:
 		g.unpack(ind)
 	case k < 97 && !g.inFunc:
@@ -381,7 +383,6 @@ func (g *aspGen) funcDef(ind int) {
 	g.fdepth = g.depth + 1
 	f.fresh = true
 	snap := g.enterReeval()
-	defer g.exitReeval(snap)
 	g.block(func() {
 		for i := range f.params {
 			p := f.params[i]
@@ -403,6 +404,27 @@ func (g *aspGen) funcDef(ind int) {
 	})
 	g.inFunc = false
 	g.funcs = append(g.funcs, f)
+	g.exitReeval(snap)
+	for i, n := 0, g.n(0, 2, "ncalls"); i < n; i++ {
+		g.callOf(ind, f)
+	}
+}
+
+// callStmt assigns the result of calling one of the user functions.
+func (g *aspGen) callStmt(ind int) {
+	g.callOf(ind, g.funcs[g.n(0, len(g.funcs)-1, "callee")])
+}
+
+func (g *aspGen) callOf(ind int, f *afunc) {
+	g.startStmt()
+	e := g.callFunc(f, 2)
+	if f.folded {
+		e.fold = true
+	}
+	name := g.name(prefixOf(f.ret))
+	g.emit(ind, name+" = "+e.s)
+	v := g.declare(name, f.ret, e)
+	v.nonASCII = true
 }
 
 func (g *aspGen) noteReturn(f *afunc, r ex) {
